@@ -81,6 +81,26 @@ Theorem C16_accepts_without_collision t nodes cl : is_flat t = false -> walk_top
 Proof. exact (flatten_accepts t nodes cl). Qed.
 Print Assumptions C16_accepts_without_collision.
 
+(* ... so: a well-supported hierarchy (every connection a whole signal declared in its module) without a name
+   collision is always flattened *)
+Theorem C16_accepts_supported t : is_flat t = false -> supported t = true ->
+  exists nodes cl, walk_top t = Ok (nodes, cl) /\
+    ((forall q q', In q (top_claims t ++ cl) -> In q' (top_claims t ++ cl) -> flat_name q = flat_name q' -> q = q') ->
+     flatten t = Ok (FNew (build t nodes))).
+Proof.
+  intros Ef Hs. destruct (walk_top_total t Hs) as [[nodes cl] Hw]. exists nodes, cl. split; [exact Hw|].
+  intros Hinj. exact (flatten_accepts t nodes cl Ef Hw Hinj).
+Qed.
+Print Assumptions C16_accepts_supported.
+
+(* 5. why the repair C16-2 is needed: the same algorithm WITHOUT the claim registry (the pinned code) joins two
+      terminals that are on different nets of a well-formed hierarchy (top-level signal `l:x`, net x of instance l) *)
+Theorem C16_unchecked_refuted :
+  exists t f a b, wf_hier t = true /\ flatten_unchecked t = Ok f /\ In a (terminals t) /\ In b (terminals t) /\
+                  ~ conn hnode (hstep t) a b /\ conn hnode (hstep (fmod_hmod f)) (tr a) (tr b).
+Proof. exact unchecked_refuted. Qed.
+Print Assumptions C16_unchecked_refuted.
+
 (* ---------------- non-vacuity ---------------- *)
 Definition ex_inner (leaf : name) (sig : name) : list hinst :=
   [ILeaf leaf "vlsir.primitives/resistor{r=1;}" [("p", 1); ("n", 1)] [("p", CSig "a"); ("n", CSig sig)]].
@@ -90,8 +110,8 @@ Definition ex_t (top_sig : name) : hmod :=
                 ISub "k" [("a", 1)] [("x", 1)] (ex_inner "r" "x") [("a", CSig top_sig)];
                 ILeaf "r2" "vlsir.primitives/resistor{r=2;}" [("p", 1); ("n", 1)] [("p", CSig top_sig); ("n", CSig "p")]] |}.
 
-Example C16_ex_wf : wf_hier (ex_t "s") = true /\ is_flat (ex_t "s") = false.
-Proof. split; reflexivity. Qed.
+Example C16_ex_wf : wf_hier (ex_t "s") = true /\ is_flat (ex_t "s") = false /\ supported (ex_t "s") = true.
+Proof. repeat split; reflexivity. Qed.
 
 Example C16_ex_flatten :
   flatten (ex_t "s") = Ok (FNew
